@@ -1,5 +1,6 @@
 import CandidModel.Proofs.DeHeader
 import CandidModel.Proofs.DeCost
+import CandidModel.Proofs.DeFuel
 /-
   C06 — Decoding arbitrary bytes never panics, crashes or over-allocates.
   In the models a Rust `unwrap`, `unreachable!`, out-of-range index or debug-mode overflow is the outcome
@@ -96,5 +97,22 @@ theorem quota_bounds_what_is_materialised (bs : Bytes) (env : Env) (expected : L
     (vs : List Val) (st : St) (h : decodeWithConfig bs env expected ⟨some n, sq⟩ = .ok vs st) : vcountL vs ≤ n := by
   obtain ⟨r, _, hr⟩ := decode_cost_ge_values bs env expected n sq vs st h
   omega
+
+
+open Candid.De in
+/-- **the depth budget only ever turns an answer into "budget exhausted"**: at any two depth budgets, for every
+visitor, wire type, expected type and decoder state (quotas included), the two runs of the decoder mirror give the
+same outcome — same value, same state, same failure — unless one of them ran out of budget (`err limit`: at a
+recursion, or while unfolding a type name).  So the stack guard cannot make the decoder accept, reject or compute
+anything different; it can only stop it. -/
+theorem depth_budget_never_changes_an_answer (env : Env) (n m : Nat) (vis : Visitor) (w e : Ty) (s : St) :
+    deAny env vis n w e s = .err .limit ∨ deAny env vis m w e s = .err .limit ∨ deAny env vis n w e s = deAny env vis m w e s :=
+  (de_fuel_agree env n m).1 vis w e s
+
+open Candid.De in
+/-- … and the same for skipping a value -/
+theorem depth_budget_never_changes_a_skip (env : Env) (n m : Nat) (w : Ty) (s : St) :
+    deIgnored env n w s = .err .limit ∨ deIgnored env m w s = .err .limit ∨ deIgnored env n w s = deIgnored env m w s :=
+  (de_fuel_agree env n m).2.1 w s
 
 end Candid.Props.C06
